@@ -107,6 +107,14 @@ class CallMixin:
             seen += 1
         return False
 
+    def is_exception_class(self, mod, cname: str) -> bool:
+        if cname in BUILTIN_EXC or cname in self.ext_exc:
+            return True
+        try:
+            return any(b.split(".")[-1] in BUILTIN_EXC or b.split(".")[-1] in self.ext_exc for b in mod.external_bases(cname))
+        except Exception:
+            return False
+
     def exc_expected(self, st: State, cls: str) -> bool:
         for hs in st.handlers:
             for h in hs:
@@ -651,6 +659,11 @@ class CallMixin:
         ci = mod.classes[cname]
         # exception classes defined in the repo with external base and no __init__
         owner, init = mod.find_method(cname, "__init__")
+        if (self.root_spec is not None and not st.spec and st.depth == 0
+                and not any(m in ("fresh", "alloc", "*") for m in self.root_spec.modifies)
+                and not self.is_exception_class(mod, cname)):
+            # allocation is an effect: it must be declared (`fresh`) in the frame of the function under contract
+            self.oblige(st, "frame", f"allocation of {cname} (declare `fresh` in modifies)", z3.BoolVal(False), node)
         ref = st.new_ref(cname)
         self.set_class_tag(st, ref.z, cname)
         if init is not None:
@@ -767,6 +780,25 @@ class CallMixin:
                     return [(st, SV(BOOL, z3.ForAll([q], z3.Implies(rng, z3.And(local, body)))))]
                 return [(st, SV(BOOL, z3.ForAll([q], z3.Implies(rng, z3.Implies(local, body)))))]
             return [(st, SV(BOOL, z3.Exists([q], z3.And(rng, local, body))))]
+        if name == "forall_obj":
+            # forall_obj(ClassName, lambda e: body): every allocated object of that class (or a subclass)
+            cname = e.args[0].id if isinstance(e.args[0], ast.Name) else e.args[0].value
+            lam = e.args[1]
+            var = lam.args.args[0].arg
+            q = z3.Int(sym.fresh_name(f"q.{var}"))
+            s = st.copy()
+            s.store = dict(st.store)
+            s.store[var] = SV(TRef(cname), q)
+            s.pc = []
+            subs = self.subclass_names(cname)
+            tag = self.class_tag(st, q)
+            rng = z3.And(q >= 0, q < st.alloc, z3.Or(*[tag == self.class_id(c) for c in subs]))
+            s.guards = list(st.guards) + [rng]
+            body = self.spec_bool(lam.body, s)
+            local = z3.And(*s.pc) if s.pc else z3.BoolVal(True)
+            if getattr(self, "_assuming", 0):
+                return [(st, SV(BOOL, z3.ForAll([q], z3.Implies(rng, z3.And(local, body)))))]
+            return [(st, SV(BOOL, z3.ForAll([q], z3.Implies(rng, z3.Implies(local, body)))))]
         if name == "fresh":
             v = self.evs(e.args[0], st)
             if st.old is None:
@@ -774,6 +806,11 @@ class CallMixin:
             if isinstance(v.t, TOpt):
                 v = sym.opt_val(v)
             return [(st, SV(BOOL, z3.And(v.z >= st.old.alloc, v.z < st.alloc)))]
+        if name == "allocated":
+            v = self.evs(e.args[0], st)
+            if isinstance(v.t, TOpt):
+                v = sym.opt_val(v)
+            return [(st, SV(BOOL, z3.And(v.z >= 0, v.z < st.alloc)))]
         if name == "typeis":
             v = self.evs(e.args[0], st)
             cname = e.args[1].value if isinstance(e.args[1], ast.Constant) else ast.unparse(e.args[1])
